@@ -55,6 +55,8 @@ mod httpd {
     pub struct DaemonSpec {
         pub dir: PathBuf,
         pub testbed: bool,
+        /// `ta_support_enabled = true` in the configuration file (independent of the `[testbed]` section)
+        pub ta_support: bool,
         pub admin_token: String,
         pub roles: Vec<RoleDef>,
         pub users: Vec<UserDef>,
@@ -119,6 +121,7 @@ mod httpd {
         t += &format!("admin_token = \"{}\"\nauth_type = \"config-file\"\n", spec.admin_token);
         t += "log_type = \"stderr\"\nlog_level = \"error\"\nca_refresh_seconds = 86400\n";
         t += &format!("unix_socket_enabled = true\nunix_socket = \"{}\"\n", unix_path.display());
+        if spec.ta_support { t += "ta_support_enabled = true\n"; }
         if let Some(role) = &spec.unix_role {
             let uid = unsafe { libc_getuid() };
             let name = user_name(uid);
@@ -380,6 +383,15 @@ fn battery(t: &Table, rng: &mut Rng, n_random: u64) -> Vec<BRole> {
         }
     }
     v.push(conf("any-on-none".into(), "per-ca-conf", u32::MAX, Some(vec![]), p));
+    // roles limited to exactly one of the CAs alice / ALICE / Alice / alice2 (handles that differ only in the case of
+    // letters, or by a suffix): the scope is the literal handle
+    for (tag, h) in CASE_CAS {
+        v.push(conf(format!("any-on-alice-{tag}"), "per-ca-case", u32::MAX, Some(vec![h.to_string()]), p));
+        v.push(conf(format!("rw-on-alice-{tag}"), "per-ca-case", rw, Some(vec![h.to_string()]), p));
+    }
+    v.push(conf("ro-on-alice-lower-and-title".into(), "per-ca-case", ro, Some(vec!["alice".into(), "Alice".into()]), p));
+    v.push(complex("x-any-but-alice-upper-nothing".into(), "per-ca-case", all, all, vec![("ALICE".into(), 0)]));
+    v.push(complex("x-nothing-but-alice-title-any".into(), "per-ca-case", login, 0, vec![("Alice".into(), u32::MAX)]));
     // hand-picked none / any / per-CA maps
     let caread = mask_of(&["CaRead"], p);
     v.push(complex("x-any-but-ca1-nothing".into(), "complex", all, all, vec![("ca1".into(), 0)]));
@@ -411,6 +423,10 @@ fn battery(t: &Table, rng: &mut Rng, n_random: u64) -> Vec<BRole> {
     }
     v
 }
+
+/// CAs whose handles differ only in the case of letters, or of which one is a prefix of the other (tag for role and
+/// user names, handle). All four exist in daemon A, each with a standing issue.
+const CASE_CAS: [(&str, &str); 4] = [("lower", "alice"), ("upper", "ALICE"), ("title", "Alice"), ("two", "alice2")];
 
 #[derive(Clone)]
 struct Caller { name: String, class: &'static str, transport: &'static str, cred_coq: String, header: Option<String>, desc: Value }
@@ -457,9 +473,10 @@ struct Recorder {
 
 impl Recorder {
     #[allow(clippy::too_many_arguments)]
-    fn push(&mut self, testbed: bool, c: &Caller, method: &str, segs: &[String], route: &Route, status: u16, effect: bool, all: &[String], listing: Option<Vec<String>>) {
+    fn push(&mut self, cfg: (bool, bool), c: &Caller, method: &str, segs: &[String], route: &Route, status: u16, effect: bool, all: &[String], listing: Option<Vec<String>>) {
         let tr = match c.transport { "tcp" => "Tcp".to_string(), other => other.to_string() };
-        let term = format!("mkCase {} {} {} (rq M{} {}) {} {} {} {}", testbed, tr, c.cred_coq, method, coq_str_list(segs), status,
+        let (ta_support, testbed) = cfg;
+        let term = format!("mkCase (mkCfg {} {}) {} {} (rq M{} {}) {} {} {} {}", ta_support, testbed, tr, c.cred_coq, method, coq_str_list(segs), status,
             effect, coq_str_list(all), match &listing { Some(l) => format!("(Some {})", coq_str_list(l)), None => "None".into() });
         let idx = self.w.total;
         self.w.push(term);
@@ -468,9 +485,9 @@ impl Recorder {
         *self.class_hist.entry(c.class.to_string()).or_default() += 1;
         *self.outcome_by_class.entry(format!("{}:{}", c.class, oc)).or_default() += 1;
         if route.gated && c.class != "no-credentials" && c.class != "wrong-credentials" {
-            self.distinct.insert(format!("{testbed} {} {} {} {}", c.transport, c.name, method, url_of(segs)));
+            self.distinct.insert(format!("{ta_support} {testbed} {} {} {} {}", c.transport, c.name, method, url_of(segs)));
         }
-        let rec = json!({"index": idx, "testbed_mode": testbed, "transport": c.transport, "caller": c.name, "caller_class": c.class,
+        let rec = json!({"index": idx, "testbed_mode": testbed, "ta_support_enabled": ta_support, "transport": c.transport, "caller": c.name, "caller_class": c.class,
             "role": c.desc, "method": method, "path": url_of(segs), "route": route.path, "status": status, "outcome": oc,
             "state_changed": effect, "listing": listing,
             "class": {"route": format!("{} {}", method, route.path), "outcome": oc, "caller_class": c.class}});
@@ -594,6 +611,90 @@ async fn wait_for_issues(c: &mut Client, cas: &[&str]) {
     panic!("set-up failed: the CAs {cas:?} never got an issue");
 }
 
+/// Row of the generated table that a concrete request falls under.
+fn route_for<'a>(t: &'a Table, method: &str, segs: &[String]) -> &'a Route {
+    t.routes.iter().find(|r| r.method == method && r.segs.len() == segs.len()
+        && r.segs.iter().zip(segs).all(|((k, v), s)| match k.as_str() { "L" => v == s, "P" => !s.is_empty(), _ => false }))
+        .unwrap_or_else(|| panic!("no row for {method} {}", url_of(segs)))
+}
+
+/// The testbed self-service routes with requests that would do something if they were served, sent without
+/// credentials (and with a wrong bearer token) to an instance with configuration `cfg` = (ta_support_enabled,
+/// `[testbed]` present). The instance gets a publication server and a CA called `testbed` when it has none;
+/// CA `tb1` is what the caller tries to register as publisher and as child, `tb2` is registered by the admin
+/// before and is what the caller tries to read and to remove. For every POST / DELETE that is answered 404 (or
+/// refused) the state is compared before and after (CA list, publisher list, /stats/cas, commands of `testbed`).
+/// Returns (publishers, children of `testbed`) as the admin sees them afterwards.
+async fn testbed_probe(rec: &mut Recorder, table: &Table, cfg: (bool, bool), port: u16, adm: &mut Client, tcp: &mut Client) -> Value {
+    let (_, testbed) = cfg;
+    let mut setup = BTreeMap::new();
+    if !testbed {
+        let body = json!({"rrdp_base_uri": format!("https://localhost:{port}/rrdp/"), "rsync_jail": "rsync://localhost/repo/"});
+        let (st, b) = admin_send(adm, "POST", "/api/v1/pubd/init", Some(body.to_string().as_bytes())).await;
+        assert!(st == 200, "publication server init: {st} {}", String::from_utf8_lossy(&b));
+        ensure_ca(adm, "testbed").await;
+    }
+    ensure_ca(adm, "tb1").await;
+    ensure_ca(adm, "tb2").await;
+    let mut preq = BTreeMap::new();
+    let mut creq = BTreeMap::new();
+    for (k, ca) in ["tb1", "tb2"].iter().enumerate() {
+        let (st, b) = admin_send(adm, "GET", &format!("/api/v1/cas/{ca}/id/publisher_request.json"), None).await;
+        assert!(st == 200, "publisher request of {ca}: {st}");
+        preq.insert(*ca, b);
+        let (st, b) = admin_send(adm, "GET", &format!("/api/v1/cas/{ca}/id/child_request.json"), None).await;
+        assert!(st == 200, "child request of {ca}: {st}");
+        let v: Value = serde_json::from_slice(&b).expect("child request json");
+        creq.insert(*ca, json!({"handle": ca, "resources": {"asn": "", "ipv4": format!("10.{}.0.0/16", 201 + k), "ipv6": ""}, "id_cert": v["id_cert"]}).to_string().into_bytes());
+    }
+    let anon = Caller { name: "anonymous".into(), class: "no-credentials", transport: "tcp", cred_coq: "CNone".into(), header: None, desc: json!("no Authorization header") };
+    let wrong = Caller { name: "wrong-bearer".into(), class: "wrong-credentials", transport: "tcp", cred_coq: "CWrong".into(), header: Some("Bearer not-a-token".into()), desc: json!("Bearer not-a-token") };
+    let seg = |p: &str| -> Vec<String> { p.trim_start_matches('/').split('/').map(|x| x.to_string()).collect() };
+    for c in [&anon, &wrong] {
+        // tb2 registered (again), tb1 not registered: the state every caller starts from
+        let (st_p, _) = admin_send(adm, "POST", "/api/v1/pubd/publishers", Some(&preq["tb2"])).await;
+        let (st_c, _) = admin_send(adm, "POST", "/api/v1/cas/testbed/children", Some(&creq["tb2"])).await;
+        let _ = admin_send(adm, "DELETE", "/api/v1/pubd/publishers/tb1", None).await;
+        let _ = admin_send(adm, "DELETE", "/api/v1/cas/testbed/children/tb1", None).await;
+        setup.insert(format!("{}: admin registers publisher tb2 / child tb2 of testbed", c.name), json!([st_p, st_c]));
+        let probes: Vec<(&str, &str, Option<&[u8]>)> = vec![
+            ("GET", "/testbed/enabled", None),
+            ("POST", "/testbed/publishers", Some(&preq["tb1"])),
+            ("GET", "/testbed/publishers/tb2/response.xml", None),
+            ("DELETE", "/testbed/publishers/tb2", None),
+            ("GET", "/testbed/publishers/tb1/response.xml", None),
+            ("POST", "/testbed/children", Some(&creq["tb1"])),
+            ("GET", "/testbed/children/tb2/parent_response.xml", None),
+            ("DELETE", "/testbed/children/tb2", None),
+            ("GET", "/testbed/children/tb1/parent_response.xml", None),
+            ("DELETE", "/testbed/publishers/tb1", None),
+            ("DELETE", "/testbed/children/tb1", None),
+        ];
+        for (method, path, body) in probes {
+            let segs = seg(path);
+            let route = route_for(table, method, &segs);
+            let mutating = method != "GET";
+            let before = if mutating { Some(fingerprint(adm, Some("testbed")).await) } else { None };
+            let reply = tcp.request(method, path, c.header.as_deref(), body).await;
+            let turned_away = reply.status == 401 || reply.status == 403 || reply.status == 404;
+            let mut effect = false;
+            if let (Some(before), true) = (&before, turned_away) {
+                let after = fingerprint(adm, Some("testbed")).await;
+                effect = *before != after;
+                if effect && std::env::var("C13_DEBUG").is_ok() {
+                    for (a, b) in before.lines().zip(after.lines()) { if a != b { eprintln!("FP-DIFF {method} {path}\n  before: {}\n  after:  {}", &a[..a.len().min(600)], &b[..b.len().min(600)]); } }
+                }
+            }
+            rec.push(cfg, c, method, &segs, route, reply.status, effect, &[], None);
+        }
+    }
+    let (_, pubs) = admin_get(adm, "/api/v1/pubd/publishers").await;
+    let pubs: Value = serde_json::from_slice(&pubs).unwrap_or(Value::Null);
+    let (_, tbca) = admin_get(adm, "/api/v1/cas/testbed").await;
+    let tbca: Value = serde_json::from_slice(&tbca).unwrap_or(Value::Null);
+    json!({"set_up": setup, "publishers_afterwards": pubs["publishers"].as_array().map(|a| a.len()), "children_of_testbed_afterwards": tbca["children"].as_array().map(|a| a.len())})
+}
+
 fn main() {
     let args = Args::parse("c13");
     let code = run(&args);
@@ -621,6 +722,7 @@ fn run(args: &Args) -> i32 {
     let mut timings = BTreeMap::new();
     let mut login_refused: Vec<String> = Vec::new();
     let mut requests_total = 0u64;
+    let mut testbed_probes: BTreeMap<String, Value> = BTreeMap::new();
 
     // ------------------------------------------------------------------ daemon A: testbed on; the process user
     // is mapped on the Unix socket to a role that holds everything except `login`.
@@ -632,7 +734,7 @@ fn run(args: &Args) -> i32 {
         defs.push(RoleDef { name: "conf-nologin".into(), how: RoleHow::Conf { permissions: texts_of(nologin, &table.perms), cas: None } });
         let mut users: Vec<UserDef> = roles.iter().map(|r| UserDef { id: format!("u-{}", r.name), password: format!("pw-{}", r.name), role: r.name.clone() }).collect();
         users.push(UserDef { id: "u-conf-nologin".into(), password: "pw".into(), role: "conf-nologin".into() });
-        let spec = DaemonSpec { dir: args.out.join("daemon-a"), testbed: true, admin_token: ADMIN_TOKEN.into(), roles: defs, users,
+        let spec = DaemonSpec { dir: args.out.join("daemon-a"), testbed: true, ta_support: false, admin_token: ADMIN_TOKEN.into(), roles: defs, users,
                                 unix_role: Some("unix-nologin".into()), perms: perm_texts.clone() };
         let ts = std::time::Instant::now();
         let daemon = httpd::start(&spec);
@@ -648,7 +750,15 @@ fn run(args: &Args) -> i32 {
             // the bulk issue listing differs between callers that may read different CAs
             let ti = std::time::Instant::now();
             for (k, ca) in ["ca1", "ca2", "ca4"].iter().enumerate() { give_issue(&mut adm, ca, k as u8 + 1).await; }
-            wait_for_issues(&mut adm, &["ca1", "ca2", "ca4"]).await;
+            // alice / ALICE / Alice / alice2: four different CAs, each with an issue of its own
+            for (k, (_, ca)) in CASE_CAS.iter().enumerate() { ensure_ca(&mut adm, ca).await; give_issue(&mut adm, ca, k as u8 + 11).await; }
+            let mut with_issue: Vec<&str> = vec!["ca1", "ca2", "ca4"];
+            with_issue.extend(CASE_CAS.iter().map(|(_, h)| *h));
+            wait_for_issues(&mut adm, &with_issue).await;
+            {
+                let shown = admin_listing(&mut adm, "/api/v1/cas").await;
+                for (_, h) in CASE_CAS { assert!(shown.iter().any(|s| s == h), "set-up: CA {h} is not listed: {shown:?}"); }
+            }
             timings.insert("issue_setup_s".to_string(), ti.elapsed().as_secs_f64());
             // callers
             let mut callers: Vec<Caller> = Vec::new();
@@ -679,7 +789,25 @@ fn run(args: &Args) -> i32 {
             let ro = callers.iter().find(|c| c.name == "readonly").unwrap().clone();
             ucallers.push(Caller { name: "unix-readonly-session".into(), class: "unix-peer", transport: unix_tr, ..ro });
 
+            let tp = std::time::Instant::now();
+            let probe = testbed_probe(&mut rec, &table, (false, true), daemon.port, &mut adm, &mut tcp).await;
+            testbed_probes.insert("ta_support_enabled=false testbed=true".to_string(), probe);
+            timings.insert("daemon_a_testbed_probe_s".to_string(), tp.elapsed().as_secs_f64());
+
             let cas: Vec<&str> = if args.thorough() { vec!["ca1", "ca2", "ca3", "testbed"] } else { vec!["ca1", "ca2"] };
+            // CAs that exist, are re-created after a served DELETE, and whose command history is part of the state
+            // compared around a refused request
+            let mut managed: Vec<&str> = vec!["ca1", "ca2"];
+            managed.extend(CASE_CAS.iter().map(|(_, h)| *h));
+            // phase 1: every route under /api/v1/cas/{ca} for each of alice / ALICE / Alice / alice2 (thorough: also
+            // the unknown CAs alic and ALICE2), and the listings, for the roles scoped to exactly one of them (and a
+            // few others for contrast); phase 2: every route, ca1 / ca2, every caller
+            let mut case_cas: Vec<&str> = CASE_CAS.iter().map(|(_, h)| *h).collect();
+            if args.thorough() { case_cas.push("alic"); case_cas.push("ALICE2"); }
+            let case_callers: Vec<Caller> = callers.iter().filter(|c| c.class == "per-ca-case" || ["anonymous", "readonly", "rw-on-ca1", "x-any-but-ca1-nothing"].contains(&c.name.as_str())).cloned().collect();
+            assert!(case_callers.len() >= 15, "scoped callers missing");
+            let no_callers: Vec<Caller> = Vec::new();
+            let phases: Vec<(bool, &Vec<Caller>, &Vec<Caller>, &Vec<&str>)> = vec![(true, &case_callers, &no_callers, &case_cas), (false, &callers, &ucallers, &cas)];
             let mut last_fp: Option<(Option<String>, String)> = None;
             let tq = std::time::Instant::now();
             // the listing endpoints first, while every CA of the set-up still has its issue (later probes delete and
@@ -687,8 +815,9 @@ fn run(args: &Args) -> i32 {
             let is_listing_route = |r: &Route| r.method == "GET" && (r.path == "/api/v1/cas" || r.path == "/api/v1/bulk/cas/issues" || r.filter.is_some());
             let mut ordered: Vec<&Route> = table.routes.iter().filter(|r| is_listing_route(r)).collect();
             ordered.extend(table.routes.iter().filter(|r| !is_listing_route(r)));
-            for route in ordered {
-                let mut ca_variants: Vec<&str> = if route.per_ca { cas.clone() } else { vec!["ca1"] };
+            for (scoped_phase, callers, ucallers, cas) in phases { for route in ordered.iter().copied() {
+                if scoped_phase && !(route.per_ca || is_listing_route(route)) { continue }
+                let mut ca_variants: Vec<&str> = if route.per_ca { (*cas).clone() } else { vec!["ca1"] };
                 // do not let the permitted callers delete the testbed CA (ca1 / ca2 are re-created after a served DELETE)
                 if route.method == "DELETE" && route.path == "/api/v1/cas/{handle}" { ca_variants.retain(|c| *c != "testbed"); }
                 let opts: Vec<bool> = if route.segs.iter().any(|s| s.0 == "O") && args.thorough() { vec![false, true] } else { vec![false] };
@@ -697,7 +826,7 @@ fn run(args: &Args) -> i32 {
                     let url = if segs == vec!["".to_string()] { "/".to_string() } else { url_of(&segs) };
                     let mutating = route.method != "GET";
                     let body: Option<&[u8]> = if route.method == "POST" { Some(b"{}") } else { None };
-                    let fp_ca: Option<String> = if route.per_ca && (*ca == "ca1" || *ca == "ca2") { Some(ca.to_string()) } else { None };
+                    let fp_ca: Option<String> = if route.per_ca && managed.contains(ca) { Some(ca.to_string()) } else { None };
                     // listing endpoints are named by the specification (Routes.v: `listing`), not taken from the
                     // generated table: a handler that stops filtering must not switch the observation off
                     let is_listing = is_listing_route(route);
@@ -726,16 +855,16 @@ fn run(args: &Args) -> i32 {
                                 last_fp = Some((fp_ca.clone(), after));
                             } else if !refused {
                                 last_fp = None;
-                                if route.method == "DELETE" && route.path == "/api/v1/cas/{handle}" && reply.status == 200 && (*ca == "ca1" || *ca == "ca2") {
+                                if route.method == "DELETE" && route.path == "/api/v1/cas/{handle}" && reply.status == 200 && managed.contains(ca) {
                                     ensure_ca(&mut adm, ca).await;
                                 }
                             }
                         }
                         let listing = if is_listing && reply.status == 200 { shown_handles(&reply.body) } else { None };
-                        rec.push(true, c, &route.method, &segs, route, reply.status, effect, &all, listing);
+                        rec.push((false, true), c, &route.method, &segs, route, reply.status, effect, &all, listing);
                     }
                 }}
-            }
+            }}
             timings.insert("daemon_a_requests_s".to_string(), tq.elapsed().as_secs_f64());
             requests_total += tcp.sent + adm.sent + ux.sent;
             tcp.close(); adm.close(); ux.close();
@@ -745,23 +874,27 @@ fn run(args: &Args) -> i32 {
         timings.insert("daemon_a_stop_s".to_string(), ts.elapsed().as_secs_f64());
     }
 
-    // ------------------------------------------------------------------ daemon B: testbed off; the process user
-    // is mapped to the built-in testbed role. Probes: every testbed route, plus the gated routes for the
-    // Unix-socket peer and a few sessions (cheap: one CA variant).
-    {
+    // ------------------------------------------------------------------ daemons B, C, D: the other three
+    // combinations of ta_support_enabled x [testbed] (A: off / present); the process user is mapped to the built-in
+    // testbed role. Probes: the scripted testbed requests without credentials, then every route (testbed routes
+    // included) for the Unix-socket peer and a few sessions (cheap: one CA variant).
+    for (tag, cfg) in [("b", (false, false)), ("c", (true, false)), ("d", (true, true))] {
+        let (ta_support, testbed) = cfg;
         let keep = ["admin", "readwrite", "readonly"];
         let mut defs: Vec<RoleDef> = roles.iter().filter(|r| keep.contains(&r.name.as_str())).map(|r| RoleDef { name: r.name.clone(), how: r.how.clone() }).collect();
         defs.push(RoleDef { name: "unix-testbed".into(), how: RoleHow::Builtin("testbed") });
         let users: Vec<UserDef> = keep.iter().map(|n| UserDef { id: format!("u-{n}"), password: format!("pw-{n}"), role: n.to_string() }).collect();
-        let spec = DaemonSpec { dir: args.out.join("daemon-b"), testbed: false, admin_token: ADMIN_TOKEN.into(), roles: defs, users,
+        let spec = DaemonSpec { dir: args.out.join(format!("daemon-{tag}")), testbed, ta_support, admin_token: ADMIN_TOKEN.into(), roles: defs, users,
                                 unix_role: Some("unix-testbed".into()), perms: perm_texts.clone() };
         let ts = std::time::Instant::now();
         let daemon = httpd::start(&spec);
-        timings.insert("daemon_b_start_s".to_string(), ts.elapsed().as_secs_f64());
+        timings.insert(format!("daemon_{tag}_start_s"), ts.elapsed().as_secs_f64());
         rt.block_on(async {
             let mut tcp = Client::new(Endpoint::Tcp(daemon.port));
             let mut adm = Client::new(Endpoint::Tcp(daemon.port));
             let mut ux = Client::new(Endpoint::Unix(daemon.unix_path.clone()));
+            let probe = testbed_probe(&mut rec, &table, cfg, daemon.port, &mut adm, &mut tcp).await;
+            testbed_probes.insert(format!("ta_support_enabled={ta_support} testbed={testbed}"), probe);
             ensure_ca(&mut adm, "ca1").await;
             let mut callers: Vec<(bool, Caller)> = Vec::new();
             callers.push((false, Caller { name: "anonymous".into(), class: "no-credentials", transport: "tcp", cred_coq: "CNone".into(), header: None, desc: json!("no Authorization header") }));
@@ -780,10 +913,10 @@ fn run(args: &Args) -> i32 {
                     let cl = if *is_unix { &mut ux } else { &mut tcp };
                     let reply = cl.request(&route.method, &url, c.header.as_deref(), body).await;
                     if route.method == "DELETE" && route.path == "/api/v1/cas/{handle}" && reply.status == 200 { ensure_ca(&mut adm, "ca1").await; }
-                    rec.push(false, c, &route.method, &segs, route, reply.status, false, &[], None);
+                    rec.push(cfg, c, &route.method, &segs, route, reply.status, false, &[], None);
                 }
             }
-            timings.insert("daemon_b_requests_s".to_string(), tq.elapsed().as_secs_f64());
+            timings.insert(format!("daemon_{tag}_requests_s"), tq.elapsed().as_secs_f64());
             requests_total += tcp.sent + adm.sent + ux.sent;
             tcp.close(); adm.close(); ux.close();
         });
@@ -799,7 +932,7 @@ fn run(args: &Args) -> i32 {
     let stats = json!({
         "evaluations": evaluations,
         "distinct_nontrivial": rec.distinct.len(),
-        "rule": "one case per HTTP request: every route x method of the table regenerated from dispatch/*.rs (per-CA routes for each of the CAs ca1, ca2; thorough: also an unknown CA, the testbed CA and filled optional parameters) x every caller: no credentials, a wrong bearer token, the admin token, one config-file user per role of the battery (built-in admin/readwrite/readonly; login + one permission; all but one permission; config-file roles limited to ca1 / ca2 / both; hand-picked and seeded random none/any/per-CA maps), and the Unix-socket peer user mapped to a role without login (daemon with testbed mode) or to the built-in testbed role (second daemon, testbed mode off). Non-trivial: the route has at least one gate and the caller presents valid credentials, so the answer depends on the role's sets; distinct = distinct (daemon, transport, role, method, path).",
+        "rule": "one case per HTTP request: every route x method of the table regenerated from dispatch/*.rs (per-CA routes for each of the CAs ca1, ca2; thorough: also an unknown CA, the testbed CA and filled optional parameters) x every caller: no credentials, a wrong bearer token, the admin token, one config-file user per role of the battery (built-in admin/readwrite/readonly; login + one permission; all but one permission; config-file roles limited to ca1 / ca2 / both; hand-picked and seeded random none/any/per-CA maps), and the Unix-socket peer user mapped to a role without login (daemon A: testbed mode on, ta_support_enabled off) or to the built-in testbed role (daemons B, C, D: the other three combinations of ta_support_enabled x [testbed] section; every route once, few callers). Scripted in every run: (1) in daemon A the CAs alice, ALICE, Alice and alice2 (handles that differ only in case, or by a suffix) exist, each with a standing issue; every route under /api/v1/cas/{ca} x each of these four CAs (thorough: also the unknown alic and ALICE2) and every listing is requested by roles limited to exactly one of them (any-on-*, rw-on-*), by a role limited to alice+Alice, by none/any/per-CA maps that name ALICE or Alice only, and by a few unrelated callers; (2) in each of the four daemon configurations the testbed self-service routes are requested without credentials and with a wrong bearer token, with bodies that would register CA tb1 as publisher / child of the CA testbed and with paths that read and remove the publisher / child tb2 the admin registered before; after every POST / DELETE answered 401, 403 or 404 the state seen by the admin (CA list, publisher list, /stats/cas, commands of the CA testbed) is compared with the state before. Non-trivial: the route has at least one gate and the caller presents valid credentials, so the answer depends on the role's sets; distinct = distinct (daemon configuration, transport, role, method, path).",
         "samples": rec.samples,
         "status_distribution": rec.status_hist,
         "caller_class_distribution": rec.class_hist,
@@ -810,6 +943,8 @@ fn run(args: &Args) -> i32 {
         "http_requests_sent": requests_total,
         "refused_requests_with_state_change": rec.effects,
         "timings_s": timings,
+        "testbed_probes": testbed_probes,
+        "case_handles": CASE_CAS.iter().map(|(_, h)| *h).collect::<Vec<_>>(),
         "impl_failures": impl_failures,
     });
     write_json(&args.out.join("stats.json"), &stats);
